@@ -114,6 +114,9 @@ type stepT struct {
 	Pt     string `json:"pt"`
 	Claims string `json:"claims"`
 	Bf     string `json:"bf"`
+	Cid    string `json:"cid"`
+	Flt    string `json:"flt"`
+	By     string `json:"by"`
 	Obj    string `json:"obj"`
 	Hc     string `json:"hc"`
 	Exp    *struct {
@@ -165,23 +168,26 @@ type obj struct {
 }
 
 type run struct {
-	s      *srvkit.Server
-	cm     *srvkit.Commands
-	ids    map[string]int64
-	secret map[string]string
-	nameOf map[int64]string
-	v      map[string]*srvkit.Conn // victims' control connections by client name
-	c1     *srvkit.Conn
-	chal   string            // latest challenge received on c1
-	objn   map[string]string // real identifier -> abstract object name
-	oneway map[packet.CommandType]bool
-	tag    string
-	ncmd   int
-	m1ID   string
-	mapID  map[string]string // m0, mz
-	k0Code string
-	k1Code string
-	d1ID   string
+	s         *srvkit.Server
+	cm        *srvkit.Commands
+	ids       map[string]int64
+	secret    map[string]string
+	nameOf    map[int64]string
+	v         map[string]*srvkit.Conn // victims' control connections by client name
+	c1        *srvkit.Conn
+	chal      string            // latest challenge received on c1
+	objn      map[string]string // real identifier -> abstract object name
+	oneway    map[packet.CommandType]bool
+	tag       string
+	ncmd      int
+	lastCmdID string
+	faultMu   sync.Mutex
+	faultKey  string // suffix of the storage key whose next read fails once ("" = disarmed)
+	m1ID      string
+	mapID     map[string]string // m0, mz
+	k0Code    string
+	k1Code    string
+	d1ID      string
 }
 
 var cmdSeq atomic.Int64
@@ -200,7 +206,7 @@ type inconclusive string
 
 var tNewRun, tCmd, tSnap, nRuns atomic.Int64
 
-func newRun(reg, wv string, gate func(sub, base string)) (r *run, err error) {
+func newRun(reg, wv string, gate func(sub, base string), faults bool) (r *run, err error) {
 	t0 := time.Now()
 	defer func() { tNewRun.Add(int64(time.Since(t0))); nRuns.Add(1) }()
 	s, err := srvkit.NewServer(srvkit.Options{HeartbeatTimeout: time.Hour, CleanupInterval: time.Hour})
@@ -214,7 +220,11 @@ func newRun(reg, wv string, gate func(sub, base string)) (r *run, err error) {
 			s.Close()
 		}
 	}()
-	if r.cm, err = s.EnableCommands(srvkit.CommandOptions{Library: reg == "library", DomainGate: gate}); err != nil {
+	opts := srvkit.CommandOptions{Library: reg == "library", DomainGate: gate}
+	if faults {
+		opts.StorageFault = r.storageFault
+	}
+	if r.cm, err = s.EnableCommands(opts); err != nil {
 		return nil, err
 	}
 	for _, rc := range r.cm.Listing() {
@@ -305,6 +315,7 @@ func newRun(reg, wv string, gate func(sub, base string)) (r *run, err error) {
 //
 //	expired   m1, k1, d1 are past their expiry but still stored (nothing has swept them yet)
 //	revoked   m1 revoked (ConnectionCodeService.RevokeMapping), k1 revoked (RevokeConnectionCode)
+//	migrated  CloudControl.MigrateClientMappings(A, C): C is now the listen client of m1 and mz
 //	inactive  m1 status inactive (UpdatePortMappingStatus), d1 status inactive
 func (r *run) applyWorldVariant(wv, m1ID, k1ID, k1Code, d1ID string) error {
 	ctx := context.Background()
@@ -346,6 +357,23 @@ func (r *run) applyWorldVariant(wv, m1ID, k1ID, k1Code, d1ID string) error {
 			return err
 		}
 		return r.cm.ConnCodes.RevokeConnectionCode(k1Code, "verif")
+	case "migrated":
+		// a real history that re-owns mappings: the CloudControl API moves A's mappings to C (the records now say
+		// listen = C; A's per-client index still names them). A gets a fresh self-mapping m4 so that it still has
+		// a configuration to be pushed.
+		if err := r.s.Cloud.MigrateClientMappings(r.ids["A"], r.ids["C"]); err != nil {
+			return err
+		}
+		k4, err := r.cm.ConnCodes.CreateConnectionCode(&services.CreateConnectionCodeRequest{TargetClientID: r.ids["A"], TargetAddress: "tcp://127.0.0.1:8084", CreatedBy: "verif"})
+		if err != nil {
+			return err
+		}
+		m4, err := r.cm.ConnCodes.ActivateConnectionCode(&services.ActivateConnectionCodeRequest{Code: k4.Code, ListenClientID: r.ids["A"], ListenAddress: "0.0.0.0:9104"})
+		if err != nil {
+			return err
+		}
+		r.objn[m4.ID], r.objn[k4.ID], r.objn[k4.Code] = "m4", "k4", "k4"
+		return nil
 	case "inactive":
 		if err := r.s.Cloud.UpdatePortMappingStatus(m1ID, models.MappingStatusInactive); err != nil {
 			return err
@@ -638,6 +666,11 @@ func (r *run) body(st stepT, actor, bf string) string {
 		return j(map[string]any{"code": codeStr, "listen_address": "0.0.0.0:9300"})
 	case "MappingGet", "MappingDelete":
 		return j(map[string]any{"mapping_id": mappingID})
+	case "MappingList":
+		if st.Obj == "inbound" || st.Obj == "outbound" {
+			return j(map[string]any{"direction": st.Obj})
+		}
+		return j(map[string]any{})
 	case "HTTPDomainCheckSubdomain":
 		return j(packet.HTTPDomainCheckSubdomainRequest{Subdomain: "vic", BaseDomain: "tunnox.net"})
 	case "HTTPDomainGenSubdomain":
@@ -670,6 +703,47 @@ func (r *run) body(st stepT, actor, bf string) string {
 		return j(map[string]any{"method": "verif"})
 	}
 	return j(map[string]any{})
+}
+
+// armFault arms (or, with "", disarms) the one-shot read fault for the named object's main record.
+func (r *run) armFault(objName string) {
+	id := ""
+	switch objName {
+	case "":
+	case "m1":
+		id = r.m1ID
+	case "m0", "mz":
+		id = r.mapID[objName]
+	case "m2":
+		for x := range r.liveNew("mapping") {
+			id = x
+		}
+	case "k1":
+		id = r.k1Code
+	case "k0":
+		id = r.k0Code
+	case "d1":
+		id = r.d1ID
+	case "d2":
+		for x := range r.liveNew("domain") {
+			id = x
+		}
+	}
+	r.faultMu.Lock()
+	r.faultKey = id
+	r.faultMu.Unlock()
+}
+
+var errInjected = fmt.Errorf("verif: injected transient storage read failure")
+
+func (r *run) storageFault(key string) error {
+	r.faultMu.Lock()
+	defer r.faultMu.Unlock()
+	if r.faultKey != "" && strings.HasSuffix(key, r.faultKey) {
+		r.faultKey = ""
+		return errInjected
+	}
+	return nil
 }
 
 // liveNew lists the real ids of objects of a kind that were not created at set-up (m2 / d2 of the model).
@@ -710,20 +784,46 @@ func (r *run) actorIdentity() string {
 }
 
 // cmd sends one command on c1 and observes everything the statement talks about.
-func (r *run) cmd(st stepT, claims, bf string) (*cmdResult, string) {
+// cmdOpts: which connection sends, the variant of the command
+type cmdOpts struct {
+	claims, bf string
+	cmdID      string       // "" = a fresh one
+	snd        *srvkit.Conn // nil = the actor connection c1
+	sndName    string
+	fault      bool // one transient read fault of the named object's main record
+}
+
+func (r *run) identityOf(c *srvkit.Conn) string {
+	v := r.s.View(c)
+	if v.InControl && v.ClientID != 0 {
+		return r.clientName(v.ClientID)
+	}
+	return "none"
+}
+
+func (r *run) cmd(st stepT, o cmdOpts) (*cmdResult, string) {
+	claims, bf := o.claims, o.bf
+	snd, sndName := o.snd, o.sndName
+	if snd == nil {
+		snd, sndName = r.c1, "c1"
+	}
 	t0 := time.Now()
 	defer func() { tCmd.Add(int64(time.Since(t0))) }()
 	ct, ok := typeByName(st.Ty)
 	if !ok {
 		return nil, "policy row " + st.Ty + " names no packet.CommandType"
 	}
-	if r.c1.Closed() {
-		return nil, "c1 is closed"
+	if snd.Closed() {
+		return nil, sndName + " is closed"
 	}
-	actor := r.actorIdentity()
+	actor := r.identityOf(snd)
 	r.ncmd++
 	r.tag = fmt.Sprintf("%d", cmdSeq.Add(1))
 	cp := &packet.CommandPacket{CommandType: ct, CommandId: "c11-" + r.tag, CommandBody: r.body(st, actor, bf)}
+	if o.cmdID != "" {
+		cp.CommandId = o.cmdID
+	}
+	r.lastCmdID = cp.CommandId
 	switch claims {
 	case "own":
 		id := int64(900000001) // unauthenticated: an id no server issues
@@ -751,6 +851,10 @@ func (r *run) cmd(st stepT, claims, bf string) (*cmdResult, string) {
 		r.cm.Drain(c)
 	}
 	r.cm.Drain(r.c1)
+	if o.fault {
+		r.armFault(st.Obj)
+		defer r.armFault("")
+	}
 
 	type sendRes struct {
 		out  []*packet.TransferPacket
@@ -759,26 +863,25 @@ func (r *run) cmd(st stepT, claims, bf string) (*cmdResult, string) {
 	}
 	done := make(chan sendRes, 1)
 	go func() {
-		out, herr, err := r.cm.Send(r.c1, &packet.TransferPacket{PacketType: pt, CommandPacket: cp})
+		out, herr, err := r.cm.Send(snd, &packet.TransferPacket{PacketType: pt, CommandPacket: cp})
 		done <- sendRes{out, herr, err}
 	}()
 	deliv := []map[string]any{}
-	var own []*packet.TransferPacket // what arrived on c1 itself while the command was running
-	poll := func(withActor bool) {
-		conns := []*srvkit.Conn{r.v["A"], r.v["B"], r.v["C"]}
-		if withActor {
-			conns = append(conns, r.c1)
-		}
+	var own []*packet.TransferPacket // what arrived on the sending connection itself while the command was running
+	poll := func(withSender bool) {
+		conns := []*srvkit.Conn{r.v["A"], r.v["B"], r.v["C"], r.c1}
 		for i, c := range conns {
-			if c.Closed() {
+			if c.Closed() || (c == snd && !withSender) {
 				continue
 			}
-			n := "c1"
+			n := ""
 			if i < len(clientNames) {
 				n = clientNames[i]
+			} else if c != snd {
+				n = r.identityOf(c) // the actor connection as a receiver: whoever the server says it is
 			}
 			for _, p := range r.cm.Drain(c) {
-				if c == r.c1 {
+				if c == snd {
 					own = append(own, p)
 				}
 				d := map[string]any{"to": n, "ty": fmt.Sprintf("packet-%d", byte(p.PacketType)), "snd": "none",
@@ -804,7 +907,7 @@ func (r *run) cmd(st stepT, claims, bf string) (*cmdResult, string) {
 							CommandPacket: &packet.CommandPacket{CommandType: p.CommandPacket.CommandType, CommandId: p.CommandPacket.CommandId, CommandBody: body}}})
 					}
 				}
-				if c != r.c1 {
+				if c != snd {
 					deliv = append(deliv, d)
 				}
 			}
@@ -826,6 +929,7 @@ wait:
 		}
 	}
 	tick.Stop()
+	r.armFault("") // a fault the command did not consume must not hit the driver's own snapshot reads
 	if res.err != nil {
 		return nil, res.err.Error()
 	}
@@ -835,7 +939,7 @@ wait:
 		time.Sleep(100 * time.Microsecond)
 	}
 	poll(false)
-	late := append(own, r.cm.Drain(r.c1)...)
+	late := append(own, r.cm.Drain(snd)...)
 	post := r.snapshot()
 
 	// response class
@@ -887,7 +991,14 @@ wait:
 	diff := diffOf(pre, post)
 	sort.Slice(deliv, func(i, j int) bool { return fmt.Sprint(deliv[i]) < fmt.Sprint(deliv[j]) })
 	sum := summary(out, ret, diff, deliv)
-	ev := fw.Event{"ev": "Cmd", "c": "c1", "ty": st.Ty, "pt": st.Pt, "claims": claims, "bf": bf, "obj": st.Obj, "hc": st.Hc, "actor": actor,
+	cid, flt := "fresh", "none"
+	if o.cmdID != "" && o.snd == nil {
+		cid = "reused"
+	}
+	if o.fault {
+		flt = "read1"
+	}
+	ev := fw.Event{"ev": "Cmd", "c": sndName, "ty": st.Ty, "pt": st.Pt, "claims": claims, "bf": bf, "cid": cid, "flt": flt, "obj": st.Obj, "hc": st.Hc, "actor": actor,
 		"out": out, "objp": objp, "objo": objo, "objt": objt, "ret": ret, "diff": diff, "deliv": deliv, "sum": sum}
 	if res.herr != nil {
 		e := res.herr.Error()
@@ -983,7 +1094,11 @@ func (r *run) hs(st stepT) (fw.Event, string) {
 // replay of one behaviour (once, or twice for the claims twin)
 
 func replay(beh *behT, twin bool, logAll bool) (evs []fw.Event, sums []string, bind []bool, note string, err error) {
-	r, err := newRun(beh.Reg, beh.Wv, nil)
+	faults := false
+	for _, st := range beh.Steps {
+		faults = faults || st.Flt == "read1"
+	}
+	r, err := newRun(beh.Reg, beh.Wv, nil, faults)
 	if err != nil {
 		return nil, nil, nil, "", err
 	}
@@ -993,6 +1108,7 @@ func replay(beh *behT, twin bool, logAll bool) (evs []fw.Event, sums []string, b
 			evs = append(evs, fw.Event{"ev": "Hs", "c": "v" + n, "k": "Login", "id": n, "type": "control", "valid": true, "ok": true, "srv": n})
 		}
 	}
+	primeID := ""
 	for i, st := range beh.Steps {
 		switch st.Op {
 		case "Hs":
@@ -1001,6 +1117,17 @@ func replay(beh *behT, twin bool, logAll bool) (evs []fw.Event, sums []string, b
 				return evs, sums, bind, fmt.Sprintf("stopped before step %d: %s", i+1, why), nil
 			}
 			evs = append(evs, ev)
+		case "Prime":
+			// a party sends the command on its own control connection; its command id is the one the actor reuses
+			pst := st
+			pst.Pt, pst.Claims, pst.Bf, pst.Hc = "cmd", "absent", "absent", "primer"
+			res, why := r.cmd(pst, cmdOpts{claims: "absent", bf: "absent", snd: r.v[st.By], sndName: "v" + st.By})
+			if res == nil {
+				return evs, sums, bind, fmt.Sprintf("stopped before step %d: %s", i+1, why), nil
+			}
+			primeID = r.lastCmdID
+			res.ev["reg"], res.ev["wv"] = beh.Reg, beh.Wv
+			evs = append(evs, res.ev)
 		case "Cmd":
 			claims, bf := st.Claims, st.Bf
 			if bf == "" {
@@ -1009,7 +1136,11 @@ func replay(beh *behT, twin bool, logAll bool) (evs []fw.Event, sums []string, b
 			if twin { // the twin run: same steps, no identity fields anywhere in the packets
 				claims, bf = "absent", "absent"
 			}
-			res, why := r.cmd(st, claims, bf)
+			o := cmdOpts{claims: claims, bf: bf, fault: st.Flt == "read1"}
+			if st.Cid == "reused" && !twin {
+				o.cmdID = primeID // the command id another client's command of this type just carried
+			}
+			res, why := r.cmd(st, o)
 			if res == nil {
 				return evs, sums, bind, fmt.Sprintf("stopped before step %d: %s", i+1, why), nil
 			}
@@ -1057,7 +1188,7 @@ func binding(st stepT, ev fw.Event) bool {
 		if st.Ty == "HTTPDomainCheckSubdomain" {
 			break // names the probed domain (no demand row)
 		}
-		if o := x["o"].(string); o != "k0" && o != "k2" && o != "m3" {
+		if o := x["o"].(string); o != "k0" && o != "k2" && o != "m3" && o != "k4" && o != "m4" {
 			got["ret:"+canon(o)] = true
 		}
 	}
@@ -1145,7 +1276,7 @@ func drive(env *fw.Env, b fw.Behaviour) (t *fw.Trace) {
 	// twin run without identity fields, when any command carried some
 	twin := false
 	for _, st := range beh.Steps {
-		if st.Op == "Cmd" && (st.Claims != "absent" || (st.Bf != "" && st.Bf != "absent")) {
+		if st.Op == "Cmd" && (st.Claims != "absent" || (st.Bf != "" && st.Bf != "absent") || st.Cid == "reused") {
 			twin = true
 		}
 	}
@@ -1157,7 +1288,10 @@ func drive(env *fw.Env, b fw.Behaviour) (t *fw.Trace) {
 		k := 0
 		for _, ev := range evs {
 			if ev["ev"] == "Cmd" {
-				if k < len(ref) && (ev["claims"] != "absent" || ev["bf"] != "absent") {
+				if ev["c"] != "c1" {
+					continue // the priming command
+				}
+				if k < len(ref) && (ev["claims"] != "absent" || ev["bf"] != "absent" || ev["cid"] == "reused") {
 					ev["ref"] = ref[k]
 				}
 				k++
@@ -1199,7 +1333,7 @@ func driveConc(env *fw.Env, beh *behT) *fw.Trace {
 		close(p.reached)
 		<-p.release
 	}
-	r, err := newRun("server", "base", gate)
+	r, err := newRun("server", "base", gate, false)
 	if err != nil {
 		return &fw.Trace{Status: fw.DriverError, Note: err.Error()}
 	}
@@ -1748,7 +1882,7 @@ func genFixes() string {
 func job(name, sets, fixes string, cmds int, resp, emit bool) fw.TLCJob {
 	b := map[bool]string{true: "TRUE", false: "FALSE"}
 	return fw.TLCJob{Name: name, Module: "Commands", Cfg: "Commands_mc.cfg", Workers: 4,
-		Consts: map[string]string{"WVS": `{"base", "expired", "revoked", "inactive"}`, "SETS": sets, "FIXES": fixes, "CMDS": strconv.Itoa(cmds), "RESP": b[resp], "EMIT": b[emit]}}
+		Consts: map[string]string{"WVS": `{"base", "expired", "revoked", "inactive", "migrated"}`, "SETS": sets, "FIXES": fixes, "CMDS": strconv.Itoa(cmds), "RESP": b[resp], "EMIT": b[emit]}}
 }
 
 func concJob(name string, emit bool) fw.TLCJob {
@@ -1775,9 +1909,11 @@ func main() {
 					concJob("mc: two duplex commands in flight, per-call contexts", false),
 				}
 			}
+			unp := job("mc: server+special rows, 2 commands, base world, unpatched tree (deviations masked)", serverSets, "{}", 2, false, false)
+			unp.Consts["WVS"] = `{"base"}` // all world variants: thorough tier
 			return []fw.TLCJob{
 				job("mc: server+special rows, 2 commands, patched tree", serverSets, allFixes, 2, false, false),
-				job("mc: server+special rows, 2 commands, unpatched tree (deviations masked)", serverSets, "{}", 2, false, false),
+				unp,
 				job("mc: library rows, 3 commands, patched tree", librarySets, allFixes, 3, false, false),
 				concJob("mc: two duplex commands in flight, per-call contexts", false),
 			}
